@@ -16,7 +16,7 @@ type c16U struct {
 
 // c16Value: the value to bind (forks on the kind; contents symbolic)
 func c16Value() (any, int) {
-	k := vChoice("valueKind", 7)
+	k := vChoice("valueKind", 8)
 	switch k {
 	case 0:
 		return map[string]any{"A": vNondet[int]("v.a"), "B": "x"}, k
@@ -30,8 +30,11 @@ func c16Value() (any, int) {
 		return &c16T{A: vNondet[int]("v.a")}, k
 	case 5:
 		return make(chan int), k // not marshalable
-	default:
+	case 6:
 		return []any{vNondet[int]("v.e")}, k
+	default:
+		// generic containers holding nil containers: nil-ness is part of the value
+		return map[string]any{"id": vNondet[int]("v.a"), "tags": []any(nil), "meta": map[string]any(nil)}, k
 	}
 }
 
@@ -80,8 +83,12 @@ func c16Do(shape int, v any, vk int, bind func(dest any) error, ref bool) c16Out
 			var d chan int
 			err := call(&d)
 			return c16Outcome{err != nil, d}
-		default:
+		case 6:
 			var d []any
+			err := call(&d)
+			return c16Outcome{err != nil, d}
+		default:
+			var d map[string]any
 			err := call(&d)
 			return c16Outcome{err != nil, d}
 		}
@@ -137,11 +144,13 @@ func c16Check(v any, vk, shape int, got c16Outcome, panicked bool) {
 		vAssert(got.isErr, "nil-or-non-pointer-destination-is-an-error")
 		return
 	}
-	sameType := shape == 0 || (shape == 1 && vk == 1) || (shape == 3 && vk == 2) || (shape == 5 && vk == 0)
+	sameType := shape == 0 || (shape == 1 && vk == 1) || (shape == 3 && vk == 2) || (shape == 5 && (vk == 0 || vk == 7))
 	if sameType {
 		vCover("same-type")
 		vAssert(!got.isErr, "same-type-bind-succeeds")
-		vAssert(vSame(got.val, v), "same-type-bind-copies-the-value-unchanged")
+		// "unchanged" is about content (an implementation may hand out the very map or an equal
+		// copy of it): same keys and elements, same nil-ness, pointers identical
+		vAssert(vSameDeep(got.val, v), "same-type-bind-copies-the-value-unchanged")
 		return
 	}
 	vCover("json-path")
@@ -168,6 +177,9 @@ func VH_C16_result() {
 		m := v.(map[string]any)
 		vAssert(len(m) == 2, "bind-does-not-modify-the-source")
 	}
+	if vk == 7 {
+		vCover("value-with-nil-containers")
+	}
 }
 
 func VH_C16_store() {
@@ -184,7 +196,7 @@ func VH_C16_store() {
 	p2 := vPanics(func() { viaResult = c16Do(shape, v, vk, func(d any) error { return NewResult(v).Bind(d) }, false) })
 	vAssert(!p2 && viaResult.isErr == got.isErr, "store-bind-and-result-bind-agree-on-errors")
 	if !got.isErr && !viaResult.isErr && (shape < 6 || shape > 8) {
-		vAssert(vSame(got.val, viaResult.val), "store-bind-and-result-bind-agree-on-values")
+		vAssert(vSameDeep(got.val, viaResult.val), "store-bind-and-result-bind-agree-on-values")
 	}
 	sv, _ := st.Get(key)
 	vAssert(vSame(sv, v), "bind-does-not-modify-the-stored-value")
